@@ -170,7 +170,9 @@ def build(shape, gin, lists_on='target'):
     return gin.external_configurable(obj, name=reg_name, **kw)
 
   if kind == 'function':
-    src = f'def {name}({signature_source(shape)}):\n  return {record_source(shape)}\n'
+    # (a generator function: the body, and so the record, only runs once the result is iterated)
+    verb = 'yield' if shape.get('generator') else 'return'
+    src = f'def {name}({signature_source(shape)}):\n  {verb} {record_source(shape)}\n'
     exec(compile(src, f'<{modname}>', 'exec'), mod.__dict__)  # pylint: disable=exec-used
     original = mod.__dict__[name]
     target = original
@@ -208,7 +210,24 @@ def build(shape, gin, lists_on='target'):
       twin.__qualname__ = name + '_twin'
       mod.__dict__[name + '_twin'] = twin
       register(twin, reg_name=name + '_twin')
-    cfg = register(target)
+    if shape.get('earlier_version') and not shape.get('decorated'):
+      # an earlier definition of the same function (same module, same name, other parameter
+      # order) was registered before; this one replaces it in interactive mode (a notebook cell
+      # edited and run again)
+      older = dict(shape, pos=list(reversed(shape['dflt'])), dflt=list(reversed(shape['pos'])),
+                   required_defaults=[], nonliteral_defaults=[])
+      src0 = f'def {name}({signature_source(older)}):\n  return "older version"\n'
+      ns = dict(mod.__dict__)
+      exec(compile(src0, f'<{modname}>', 'exec'), ns)  # pylint: disable=exec-used
+      ns[name].__module__ = modname
+      kw0 = {k: v for k, v in reg_kwargs.items() if k not in ('allowlist', 'denylist')}
+      if 'module' not in kw0:
+        kw0['module'] = modname
+      gin.external_configurable(ns[name], name=name, **kw0)
+      with gin.config.interactive_mode():
+        cfg = register(target)
+    else:
+      cfg = register(target)
     if cfg is None:
       cfg = gin.get_configurable(target)
     selector = (gin_module + '.' if gin_module else modname + '.') + name
@@ -266,7 +285,13 @@ def build(shape, gin, lists_on='target'):
       inherited = mod.__dict__[name + 'GinBase'].__dict__[
           '__init__' if kind == 'class_init' else '__new__']
       gin.configurable(name + 'GinBase', module=modname)(mod.__dict__[name + 'GinBase'])
-      src = f'class {name}({name}GinBase):\n  pass\n'
+      parent = name + 'GinBase'
+      if shape.get('configurable_base') == 2:
+        # ... through one more configurable class that defines no constructor either
+        exec(f'class {name}GinMid({parent}):\n  pass\n', mod.__dict__)  # pylint: disable=exec-used
+        gin.configurable(name + 'GinMid', module=modname)(mod.__dict__[name + 'GinMid'])
+        parent = name + 'GinMid'
+      src = f'class {name}({parent}):\n  pass\n'
     exec(compile(src, f'<{modname}>', 'exec'), mod.__dict__)  # pylint: disable=exec-used
     cls = mod.__dict__[name]
     original = inherited or cls.__dict__['__init__' if kind == 'class_init' else '__new__']
